@@ -597,7 +597,10 @@ func (t *fnTrans) nextInstr(in *ssa.Next) {
 	v := t.fresh("nextval", t.S.sortOf(mt.Elem()))
 	t.define(fmt.Sprintf("(= %s (select (select %s %s) %s))", v, t.get(t.cur, mv.Name), m, k))
 	t.assume(t.wf(v, mt.Elem()))
-	t.set(itName, fmt.Sprintf("(ite %s (store %s %s true) %s)", okv, visited, k, visited))
+	// bound to a constant: an ite at array level is not allowed inside quantifier patterns ({visited(k)} triggers)
+	nit := t.fresh(itName+"_nx", "(Array "+ks+" Bool)")
+	t.define(fmt.Sprintf("(= %s (ite %s (store %s %s true) %s))", nit, okv, visited, k, visited))
+	t.set(itName, nit)
 	t.setVal(in, Val{Tup: []Val{{T: okv}, {T: k}, {T: v}}})
 }
 
@@ -620,8 +623,26 @@ func (t *fnTrans) chanClosedVar(ct types.Type) *StateVar {
 	return t.stateVar("CX_"+typeKey(et), "(Array Int Bool)", "chan", true, nil)
 }
 
+// chanDrainedVar: per channel, whether the most recent operation of this function on it was a non-blocking
+// select with a receive case on it that took the default branch (ghost; spec builtin drained(ch)).
+func (t *fnTrans) chanDrainedVar(ct types.Type) *StateVar {
+	et := ct.Underlying().(*types.Chan).Elem()
+	return t.stateVar("CE_"+typeKey(et), "(Array Int Bool)", "chan", true, nil)
+}
+
+func (t *fnTrans) setDrained(ct types.Type, ch Term, val Term) {
+	ce := t.chanDrainedVar(ct)
+	cur := t.get(t.cur, ce.Name)
+	t.set(ce.Name, fmt.Sprintf("(store %s %s %s)", cur, ch, val))
+}
+
 func (t *fnTrans) recordSend(ct types.Type, ch, v Term, cond Term) {
 	sent, last, _ := t.chanVars(ct)
+	if cond == "" {
+		t.setDrained(ct, ch, "false")
+	} else {
+		t.setDrained(ct, ch, fmt.Sprintf("(and (not %s) (select %s %s))", cond, t.get(t.cur, t.chanDrainedVar(ct).Name), ch))
+	}
 	cs, cv := t.get(t.cur, sent.Name), t.get(t.cur, last.Name)
 	if cond == "" {
 		t.set(sent.Name, fmt.Sprintf("(store %s %s (+ (select %s %s) 1))", cs, ch, cs, ch))
@@ -635,6 +656,11 @@ func (t *fnTrans) recordSend(ct types.Type, ch, v Term, cond Term) {
 
 func (t *fnTrans) recordRecv(ct types.Type, ch Term, cond Term) {
 	_, _, recvd := t.chanVars(ct)
+	if cond == "" {
+		t.setDrained(ct, ch, "false")
+	} else {
+		t.setDrained(ct, ch, fmt.Sprintf("(and (not %s) (select %s %s))", cond, t.get(t.cur, t.chanDrainedVar(ct).Name), ch))
+	}
 	cr := t.get(t.cur, recvd.Name)
 	if cond == "" {
 		t.set(recvd.Name, fmt.Sprintf("(store %s %s (+ (select %s %s) 1))", cr, ch, cr, ch))
@@ -770,6 +796,19 @@ func (t *fnTrans) selectInstr(in *ssa.Select) {
 			t.recordSend(s.Chan.Type(), t.term(t.val(s.Chan)), t.term(t.val(s.Send)), chosen)
 		} else {
 			t.recordRecv(s.Chan.Type(), t.term(t.val(s.Chan)), chosen)
+		}
+	}
+	if !in.Blocking {
+		// default taken: every receive case's channel was seen empty
+		dflt := fmt.Sprintf("(= %s %s)", idx, t.S.intLit("-1", tInt))
+		if !t.S.bv {
+			dflt = fmt.Sprintf("(= %s (- 1))", idx)
+		}
+		for _, s := range in.States {
+			if s.Dir == types.RecvOnly {
+				ch := t.term(t.val(s.Chan))
+				t.setDrained(s.Chan.Type(), ch, fmt.Sprintf("(or %s (select %s %s))", dflt, t.get(t.cur, t.chanDrainedVar(s.Chan.Type()).Name), ch))
+			}
 		}
 	}
 	tup := []Val{{T: idx}, {T: t.fresh("selrecvok", "Bool")}}
